@@ -217,9 +217,47 @@ func (a *pairAn) cxParamApplied(p *ir.Param, args []pval) {
 
 // runPairDepth runs the context pass and reports PAIR.depth.
 func (a *pairAn) runPairDepth(fns []*ir.Func) {
+	a.runPairDepthWith(fns, "PAIR.depth", "pattern and parameter binders never land in the root scope: every variable-registration site outside the definition-level family executes at scope depth ≥ 1 on every call path from the top-level statement parser",
+		nil, "this binder can be registered at scope depth %d — the root scope — when the construct is reached from a top-level let without an intervening scope push: the bound name then replaces a global of the same name and later definitions (and later files) translate differently")
+	// the same propagation, with the depth re-based to 0 at every entry of the expression parser: relative to the
+	// nearest enclosing expression a lambda parameter, a pattern binder or a local function's parameter sits at
+	// depth ≥ 1 — it never lands in the scope that was current when that expression started, where it would
+	// shadow (and retype) the enclosing definition's names for the rest of the block
+	a.runPairDepthWith(fns, "PAIR.own", "binders of an expression (lambda parameters, pattern binders, parameters and own name of a local function) are registered in a scope opened inside that expression: depth ≥ 1 relative to the nearest enclosing entry of the expression parser, on every call path",
+		[]string{"parseExpr", "parseExprWithPrec", "parseTerm"}, "this binder can be registered at depth %d relative to the enclosing expression — in the scope that was current when the expression started: a lambda parameter or pattern variable then stays visible after its construct and replaces (and retypes) a name of the enclosing definition")
+}
+
+func (a *pairAn) runPairTypeParams(fns []*ir.Func) {
+	a.runPairDepthFor(fns, "PAIR.tparam", "type-parameter names never land in the root scope: every registration of a type name outside the definition-level family (type definitions, package_info types) executes at scope depth ≥ 1 on every call path from the top-level statement parser",
+		nil, "this type name can be registered at scope depth %d — the root scope: a type parameter (T) of one declaration then replaces a user type of the same name for every later definition and every later file",
+		[]string{"scRegisterType", "scRegisterTypeFac"}, rootTypeBinderFamily, 1, "the type-variable registration regTypeVar (≥1)")
+}
+
+func (a *pairAn) runPairDepthWith(fns []*ir.Func, rule, title string, extraEntries []string, badFmt string) {
+	a.runPairDepthFor(fns, rule, title, extraEntries, badFmt, []string{"scDefVar", "scRegisterVarFac"}, rootBinderFamily, 6,
+		"parameter (2), union-pattern, string-pattern, own-name and local-function binders (≥6)")
+}
+
+// definition-level registration of TYPE names
+var rootTypeBinderFamily = map[string]string{
+	"piRegAll":           "package_info declarations are root-level by design",
+	"parsePackageInfo":   "package_info declarations are root-level by design",
+	"scRegTFData":        "package_info types are root-level by design",
+	"psRegMdTypes":       "type definitions are registered in the root scope once their group is parsed",
+	"psRegUdToTDCtx":     "a union is pre-registered where it is defined (root) so that its cases can refer to it",
+	"psRegRecDefToTDCtx": "a record is pre-registered where it is defined (root) so that its fields can refer to it",
+}
+
+func (a *pairAn) runPairDepthFor(fns []*ir.Func, rule, title string, extraEntries []string, badFmt string, binders []string, family map[string]string, minInner int, innerWhat string) {
 	c, f, r := a.c, a.f, a.c.R
-	r.Rule("PAIR.depth", "pattern and parameter binders never land in the root scope: every variable-registration site outside the definition-level family executes at scope depth ≥ 1 on every call path from the top-level statement parser", 4)
-	cx := &pairCtx{binderFns: map[string]int{f.Path + ".scDefVar": 0, f.Path + ".scRegisterVarFac": 0}, cbRel: map[string]int{}, entry: map[string]int{}, sites: map[token.Pos]*binderSite{}}
+	r.Rule(rule, title, 1)
+	cx := &pairCtx{binderFns: map[string]int{}, cbRel: map[string]int{}, entry: map[string]int{}, sites: map[token.Pos]*binderSite{}}
+	for _, b := range binders {
+		if _, ok := f.Prog.ByName[b]; !ok {
+			r.Undecided(rule, b, "binder-function", "fc", "anchor function not found (renamed or removed)")
+		}
+		cx.binderFns[f.Path+"."+b] = 0
+	}
 	// wrappers: a Scope parameter handed on as the scope argument of a binder function
 	for changed := true; changed; {
 		changed = false
@@ -256,6 +294,13 @@ func (a *pairAn) runPairDepth(fns []*ir.Func) {
 	for _, name := range []string{"ParseAll", "parseRootOneStmt", "parseRootStmts"} {
 		if fn, ok := f.Prog.ByName[name]; ok {
 			cx.entry[fn.Key] = 0
+		}
+	}
+	for _, name := range extraEntries {
+		if fn, ok := f.Prog.ByName[name]; ok {
+			cx.entry[fn.Key] = 0
+		} else {
+			r.Undecided(rule, name, "entry", "fc", "anchor function not found (renamed or removed)")
 		}
 	}
 	// every syntactic site is an obligation, visited by the pass or not
@@ -313,7 +358,7 @@ func (a *pairAn) runPairDepth(fns []*ir.Func) {
 	a.cx = nil
 	a.report = saved
 	if cx.diverged {
-		r.Undecided("PAIR.depth", "-", "fixpoint", "fc", "the depth propagation did not stabilise (a call cycle with a negative net scope depth)")
+		r.Undecided(rule, "-", "fixpoint", "fc", "the depth propagation did not stabilise (a call cycle with a negative net scope depth)")
 		return
 	}
 	// report, keyed by function + binder + ordinal in source order
@@ -338,37 +383,39 @@ func (a *pairAn) runPairDepth(fns []*ir.Func) {
 		ord[k]++
 		cons := fmt.Sprintf("%s#%d", s.callee, ord[k])
 		pos := c.Pos(f.M.Fset, s.pos)
-		why, exempt := rootBinderFamily[s.fn.Name]
+		why, exempt := family[s.fn.Name]
 		switch {
 		case s.unres != "":
-			r.Undecided("PAIR.depth", s.fn.Name, cons, pos, s.unres)
+			r.Undecided(rule, s.fn.Name, cons, pos, s.unres)
 		case exempt:
 			d := "unreached"
 			if s.min < infDepth {
 				d = fmt.Sprint(s.min)
 			}
-			r.OK("PAIR.depth", s.fn.Name, cons, pos, "definition-level registration ("+why+"); minimum depth "+d)
+			r.OK(rule, s.fn.Name, cons, pos, "definition-level registration ("+why+"); minimum depth "+d)
 		case s.min >= infDepth && !referenced[s.fn.Key]:
-			r.OK("PAIR.depth", s.fn.Name, cons, pos, "the enclosing function is referenced nowhere in the program (dead code)")
+			r.OK(rule, s.fn.Name, cons, pos, "the enclosing function is referenced nowhere in the program (dead code)")
 		case s.min >= infDepth:
-			r.Undecided("PAIR.depth", s.fn.Name, cons, pos, "no call path from the top-level statement parser reaches this registration through resolved calls and bound callbacks — its scope depth is unknown")
+			r.Undecided(rule, s.fn.Name, cons, pos, "no call path from the top-level statement parser reaches this registration through resolved calls and bound callbacks — its scope depth is unknown")
 		case s.min >= 1:
 			inner++
-			r.OK("PAIR.depth", s.fn.Name, cons, pos, fmt.Sprintf("minimum scope depth over all call paths is %d ≥ 1", s.min))
+			r.OK(rule, s.fn.Name, cons, pos, fmt.Sprintf("minimum scope depth over all call paths is %d ≥ 1", s.min))
 		default:
 			inner++
-			r.Bad("PAIR.depth", s.fn.Name, cons, pos, fmt.Sprintf("this binder can be registered at scope depth %d — the root scope — when the construct is reached from a top-level let without an intervening scope push: the bound name then replaces a global of the same name and later definitions (and later files) translate differently", s.min))
+			r.Bad(rule, s.fn.Name, cons, pos, fmt.Sprintf(badFmt, s.min))
 		}
 	}
-	r.Unit("binder_sites", len(list))
-	r.Unit("binder_sites_inner", inner)
-	if inner < 6 {
-		r.Undecided("PAIR.depth", "-", "sites", "fc", sprintf("%d inner binder sites found; parameter (2), union-pattern, string-pattern, own-name and local-function binders (≥6) were confirmed by hand", inner))
+	if rule == "PAIR.depth" {
+		r.Unit("binder_sites", len(list))
+		r.Unit("binder_sites_inner", inner)
+	}
+	if inner < minInner {
+		r.Undecided(rule, "-", "sites", "fc", sprintf("%d inner binder sites found; %s were confirmed by hand", inner, innerWhat))
 	}
 	var ws []string
 	for k := range cx.binderFns {
 		ws = append(ws, strings.TrimPrefix(k, f.Path+"."))
 	}
 	sort.Strings(ws)
-	r.Note("PAIR.depth: binder functions (scope argument tracked): %s", strings.Join(ws, ", "))
+	r.Note(rule+": binder functions (scope argument tracked): %s", strings.Join(ws, ", "))
 }
